@@ -6,6 +6,7 @@ from . import r_xml as X
 from . import r_tables as T
 from . import r_sib as S
 from . import r_flow as W
+from . import r_more as M
 
 
 def part(fn, **kw):
@@ -28,15 +29,15 @@ def registry():
     R["C02"] = _p(
         "Decides structural clauses of C02 on src/xls.rs: the sheet-substream dispatch has an arm feeding the cell vector for each record kind the property names (R-TAB-REC); BoolErr / FormulaValue error codes follow MS-XLS BErr (R-TAB-ERR); DIMENSIONS only sizes a reserve (R-DIM).",
         "RK / IEEE bit arithmetic, sign extension, MULRK column arithmetic",
-        [T.r_tab_rec, T.r_tab_err, W.r_dim, W.r_minmax])
+        [T.r_tab_rec, T.r_tab_err, W.r_dim, W.r_minmax, M.r_rk, M.r_accum])
     R["C03"] = _p(
         "Decides structural clauses of C03 on src/xlsb: sibling agreement of next_cell / next_formula on record framing, row state, record ids and position computation (R-SIB-XLSB); error-code table (R-TAB-ERR); BrtWsDim only sizes capacity hints (R-DIM); Empty filter and header-row filter of the lazy range builder (R-TIGHT).",
         "varint arithmetic in read_type / fill_buffer, RK arithmetic, wide_str decoding",
-        [S.r_sib_xlsb, T.r_tab_err, W.r_dim, S.r_tight, W.r_minmax])
+        [S.r_sib_xlsb, T.r_tab_err, W.r_dim, S.r_tight, W.r_minmax, M.r_rk])
     R["C04"] = _p(
         "Decides the value-attribute -> variant table of the ods cell decoder (R-TAB-ODS) and the reader configuration (R-XMLCFG). Amplification by repeat counts is decided under C06.",
         "everything in get_range: bounding box, re-expansion of repeated rows/columns, interior empty runs (run-length arithmetic)",
-        [T.r_tab_ods, X.r_xmlcfg, W.r_odspara])
+        [T.r_tab_ods, X.r_xmlcfg, W.r_odspara, M.r_odsrep, M.r_odsflat])
     R["C06"] = _p(
         "Decides, over the MIR/HIR of everything reachable from the reader entry points: XML pull loops leave on Eof (R-EOF); Range::range preconditions (R-RANGEPRE); [dataflow rules are added by the C06 engine].",
         "dependencies (zip, quick-xml, encoding_rs, codepage); time / memory constants",
@@ -56,7 +57,7 @@ def registry():
     R["C10"] = _p(
         "Decides: numeric Data/DataRef variants are built in the three readers only through formats::format_excel_* whose format operand comes from the cell's style lookup and whose date-system operand from the reader flag (R-NUMCTOR); the two built-in id tables agree with each other and with ECMA-376 18.8.30 (R-TAB-FMT); format kind -> DateTime/TimeDelta flavour (R-TAB-FMTKIND); style tables get one entry per xf (R-SST).",
         "detect_custom_number_format (a string-language scanner)",
-        [W.r_numctor, T.r_tab_fmt, T.r_tab_fmtkind, part(W.r_sst, only=["cellXfs", "XF table"]), W.r_fmtprec])
+        [W.r_numctor, T.r_tab_fmt, T.r_tab_fmtkind, part(W.r_sst, only=["cellXfs", "XF table"]), W.r_fmtprec, M.r_unesc])
     R["C12"] = _p(
         "Decides: after a fragment switch inside a character run the compression flag is re-read and its byte consumed; rich-text runs then extended data are skipped unconditionally in order; Record::skip consumes no flag byte (R-CONT); the SST gets one entry per item (R-SST).",
         "8/16-bit decoding arithmetic (XlsEncoding::decode_to, encoding_rs)",
@@ -64,7 +65,7 @@ def registry():
     R["C13"] = _p(
         "Decides: header and directory-entry field offsets follow MS-CFB (R-TAB-CFB); mini-stream cutoff `len < 4096` selecting mini FAT vs FAT and truncation of the chain to the stream length (R-CFBFLOW).",
         "sector offset arithmetic, chain order",
-        [T.r_tab_cfb, W.r_cfbflow])
+        [T.r_tab_cfb, W.r_cfbflow, M.r_cfbdir])
     R["C14"] = _p(
         "Decides: operator tokens (R-TAB-OP) and error literals (R-TAB-ERR) of both token decoders follow MS-XLS/MS-XLSB; formula cell positions through the sibling rules (R-SIB-XLSX, R-SIB-XLSB); defined-name tables get one entry per record so name tokens resolve (R-SST).",
         "column lettering arithmetic (push_column), argument ordering of n-ary functions",
@@ -72,15 +73,15 @@ def registry():
     R["C16"] = _p(
         "Decides: metadata vectors are filled by order-preserving operations only (R-ORDER); visibility and sheet-kind tables follow the specs (R-TAB-VIS, R-TAB-TYP); the date-system element is matched prefix-insensitively (R-NS) and the flag reaches every number conversion (R-NUMCTOR).",
         "exact name decoding",
-        [W.r_order, T.r_tab_vis, T.r_tab_typ, X.r_ns, W.r_numctor])
+        [W.r_order, T.r_tab_vis, T.r_tab_typ, X.r_ns, W.r_numctor, M.r_tab_1904, M.r_unesc])
     R["C17"] = _p(
         "Decides: guarded header/totals adjustments use their own field and regions/tables are attributed to the scanned sheet (R-TBL); cache fields are written only by their loaders (R-FRAME); Range::range precondition before table windowing (R-RANGEPRE).",
         "coordinate arithmetic",
-        [W.r_tbl, W.r_frame, W.r_rangepre])
+        [W.r_tbl, W.r_frame, W.r_rangepre, M.r_accum, M.r_tblfresh, M.r_counthint, M.r_unesc])
     R["C19"] = _p(
         "Decides: shared-string tables get one entry per item (R-SST); every text-accumulating event match handles Text and CData and unescapes (R-CDATA); readers never trim and always expand empty elements (R-XMLCFG); phonetic flag set/cleared in pairs and guarding <t> (R-RPH); prefix-insensitive element matching incl. rich-text closing tags (R-NS); CONTINUE handling of xls strings (R-CONT).",
         "per-character decoding in dependencies (encoding_rs, quick-xml entity expansion)",
-        [part(W.r_sst, only=["shared strings", "xls SST"]), X.r_cdata, X.r_xmlcfg, X.r_rph, X.r_ns, W.r_cont, W.r_odspara])
+        [part(W.r_sst, only=["shared strings", "xls SST"]), X.r_cdata, X.r_xmlcfg, X.r_rph, X.r_ns, W.r_cont, W.r_odspara, M.r_unesc, M.r_counthint])
     R["C20"] = _p(
         "Decides: the password sniff dominates archive opening and its error is propagated; Password depends exactly on the EncryptedPackage entry; the FILEPASS arm is unconditional; any manifest:encryption-data start returns Password and the scan is always reached; Password variants are built nowhere else (R-PWD).",
         "container-layout independence of the sniff (delegated to C13)",
